@@ -54,11 +54,11 @@ func init() {
 		Mutants: []Mutant{
 			{Name: "int16-sub-becomes-add", File: "fast/binary_ops.go", Old: "x := x.(func(*Env) int16)\n\t\t\ty := y.(func(*Env) int16)\n\t\t\tfun = func(env *Env) int16 {\n\t\t\t\treturn x(env) - y(env)", New: "x := x.(func(*Env) int16)\n\t\t\ty := y.(func(*Env) int16)\n\t\t\tfun = func(env *Env) int16 {\n\t\t\t\treturn x(env) + y(env)", Canary: true},
 			{Name: "string-add-operands-swapped", File: "fast/binary_ops.go", Old: "fun = func(env *Env) string {\n\t\t\t\treturn x(env) + y(env)", New: "fun = func(env *Env) string {\n\t\t\t\treturn y(env) + x(env)"},
-			{Name: "float32-depth2-reads-depth1", File: "fast/identifier.go", Old: "return *(*float32)(unsafe.Pointer(&env.\n\t\t\t\t\tOuter.Outer.Ints[idx]))", New: "return *(*float32)(unsafe.Pointer(&env.\n\t\t\t\t\tOuter.Ints[idx]))", Canary: true},
+			{Name: "float32-depth2-reads-depth1", File: "fast/identifier.go", Old: "return *(*float32)(unsafe.Pointer(&env.Outer.Outer.Ints[idx]))", New: "return *(*float32)(unsafe.Pointer(&env.Outer.Ints[idx]))", Nth: 1, Canary: true},
 			{Name: "quopow2-int16-parens", File: "fast/binary_ops.go", Old: "return -(n >> shift)", New: "return -n >> shift", Nth: 3},
 			{Name: "asuint64-int16-no-panic", File: "fast/util.go", Old: "\t\t\ti := fun(env)\n\t\t\tif i < 0 {\n\t\t\t\tpanic(negativeShiftAmount)\n\t\t\t}\n\t\t\treturn uint64(i)", New: "\t\t\ti := fun(env)\n\t\t\treturn uint64(i)", Nth: 3},
 			{Name: "xor-dispatched-to-or", File: "fast/binary.go", Old: "z = c.Xor(node, x, y)", New: "z = c.Or(node, x, y)"},
-			{Name: "lss-const-becomes-leq", File: "fast/binary_relops.go", Old: "return x(env) < y\n", New: "return x(env) <= y\n", Nth: 4},
+			{Name: "lss-const-becomes-leq", File: "fast/binary_relops.go", Old: "fun = func(env *Env) bool { return x(env) < y }", New: "fun = func(env *Env) bool { return x(env) <= y }", Nth: 4},
 			{Name: "unsigned-shape-in-signed-arm", File: "fast/binary_ops.go", Old: "n := x(env)\n\t\t\t\t\tif n < 0 {\n\t\t\t\t\t\tn += y_1\n\t\t\t\t\t}\n\t\t\t\t\treturn n >> shift", New: "n := x(env)\n\t\t\t\t\treturn n >> shift", Nth: 1},
 			{Name: "sub-zero-left-shortcut", File: "fast/binary_ops.go", Old: "\t\tif isLiteralNumber(y, 0) {\n\t\t\treturn xe\n\t\t}\n\n\t\tswitch k {\n\t\tcase xr.Int:\n\n\t\t\tx := x.(func(*Env) int)\n\t\t\ty := int(xr.ValueOf(y).Int())\n\t\t\tfun = func(env *Env) int {\n\t\t\t\treturn x(env) - y", New: "\t\tif isLiteralNumber(y, 1) {\n\t\t\treturn xe\n\t\t}\n\n\t\tswitch k {\n\t\tcase xr.Int:\n\n\t\t\tx := x.(func(*Env) int)\n\t\t\ty := int(xr.ValueOf(y).Int())\n\t\t\tfun = func(env *Env) int {\n\t\t\t\treturn x(env) - y"},
 		},
